@@ -20,20 +20,31 @@ META = {
                   'message list of a sequential run of the completed calls), hist_is_interleaving (those calls are a shuffle of the thread '
                   'programs), quiescent_is_sequential, conc_ok, activation_coherent (in every reachable state a connection subscribed before '
                   'the run or sent the snapshot during it knows exactly the cache of every parameter with no call in flight), '
-                  'snapshot_after_registration, conc_ok_activation.  The models are tied to modulebase.announceUpdate, the '
+                  'snapshot_after_registration, conc_ok_activation; requests through the dispatcher are thread programs of the same system '
+                  '(change_request_coherent / read_request_coherent / do_request_coherent: the calls of the funnel a change / read / do '
+                  'request makes — assignments made by the body of write_<p> before it raises included — are part of the sequential '
+                  'history, and the connection that sent the request knows the cache like any other listener); '
+                  'tolerant_compare_drifts / tolerant_compare_breaks (a comparison with a tolerance lets a drift walk the cache away '
+                  'without a message: exactness is necessary); replay_eq_cache_canonical (exactness of != is needed on canonical values '
+                  'only — tested on every case).  The models are tied to modulebase.announceUpdate, the '
                   'read/write wrappers, Parameter.__set__/finish and dispatcher.make_update/broadcast_event/handle_request/handle_activate by a '
                   'correspondence run (sequential histories with activations of several connections + labelled scheduled runs) and generated '
-                  'source facts (callbacks_all_caught, activate_shape); the Lean monitors judge every implementation trace from the '
-                  'activation of each connection on.',
+                  'source facts (callbacks_all_caught, activate_shape, funnel_shape: the comparison and the early returns of announceUpdate, '
+                  'fanout_shape: every selected listener is sent the message, the request handlers ignore the sending connection); '
+                  'histories contain change / read / do requests of listening and other connections, driver methods that assign the '
+                  'parameter themselves (observed after every call of the funnel), and values closer to each other than the resolution '
+                  'of their datatype (drifts); the Lean monitors judge every implementation trace from the activation of each connection on.',
     'level_note': 'Trusted: Lean kernel + axioms propext/Quot.sound; hypothesis ExportExact (values Python\'s != does not tell apart '
                   'have the same exported form) is re-tested on every sampled pair; callbacks re-entering the SAME parameter, callback trees deeper than one follower level, callbacks raising '
-                  'BaseException, callbacks inside the small-step (concurrent) system and DEactivation / disconnection (C08) '
-                  'are not modelled; the small-step system has one module (the per-module update locks of a general activation are '
+                  'BaseException, callbacks inside the small-step (concurrent) system, change requests with partial structs '
+                  '(validate with previous=cache) and DEactivation / disconnection (C08) are not modelled; the small-step system has one module (the per-module update locks of a general activation are '
                   'taken one after the other; only one is modelled); CPython executes a single '
                   'attribute store / list append atomically; atomicity is proved for the model\'s lock structure and validated against '
                   'the code by scheduled runs whose label sequence the model must follow.',
     'trusted': [
-        'ExportExact: two values of one exported datatype for which `a != b` is false have the same exported form (checked on every pool)',
+        'ExportExact (concurrent theorems): two values of one exported datatype for which `a != b` is false have the same exported form; '
+        'false for raw values of some pools (-0.0/0.0, 1/True); the sequential core needs it on canonical values only '
+        '(replay_eq_cache_canonical) and that restricted law is tested on every case (a breach is reported as a disagreement)',
         'vlib.sched yields before every lock/send primitive; one bytecode-level attribute store is atomic (GIL)',
         'an element of the error carrier stands for what SECoPError.__eq__ compares; the harness identifies it by (name, text)',
         'the test connections hash by their number, so the set iteration order in broadcast_event is ascending (configuration of the run)',
@@ -43,6 +54,7 @@ META = {
         'what a callback function does (oracle: returns / TypeError / other Exception, optional call of another funnel)',
         'the transport behind connection.send_reply (observed at send_reply)',
         'which parameters a specifier subscribes to (computed by the harness: all exported parameters of the module(s) / the named one)',
+        'import_value of the datum of a change request (oracle: the imported value or "refused"); partial structs are not sent',
     ],
     'assumptions': ['a connection, once activated, stays activated (deactivation and disconnection: C08)',
                     'the clock never returns 0'],
@@ -1489,7 +1501,10 @@ def run(ctx):
     res = Result()
     res.rule = ('every connection is judged from its own activate request on (general / module / parameter subscription, at the '
                 'start or in the middle of the history, 1-3 connections, re-activation included).  sequential: generated histories (read ok / raising / invalid / Done, write with every write_ outcome and check '
-                'function, assignment, explicit announceUpdate with and without error, repeats) on one generated parameter of 10 '
+                'function, assignment, explicit announceUpdate with and without error, repeats; change / read / do requests of a '
+                'listening or another connection through the dispatcher; driver methods and commands whose body assigns the parameter '
+                'before it returns or raises, observed after every call of the funnel; drifts of values closer than the resolution '
+                'of the datatype) on one generated parameter of 15 '
                 'datatypes under every update_unchanged / module / general window setting with clock steps inside, at and outside the '
                 'window; non-trivial = at least one message suppressed, one error announced and one recovery.  concurrent: 1-3 threads '
                 'x 1-3 operations on 1-2 parameters, 1-3 connections, systematic exploration with <= 2 preemptions plus random '
